@@ -247,6 +247,8 @@ pub struct Runner {
     replay_hit: bool,
     replay_failed: bool,
     slot: Slot,
+    /// number of re-executions spent on shrinking a failing case (per phase); lower it for expensive families
+    pub shrink_budget: u32,
 }
 
 // watchdog state: the start time (ms since process start) of the running case
@@ -364,6 +366,7 @@ impl Runner {
             replay_hit: false,
             replay_failed: false,
             slot: Slot::new(dir.join(jname)),
+            shrink_budget: 3000,
         }
     }
 
@@ -625,7 +628,7 @@ impl Runner {
                 // bound proptest's shrinking by work, not by time: after the budget every candidate
                 // "passes", so proptest settles on the best case found so far
                 shrink_calls.set(shrink_calls.get() + 1);
-                if shrink_calls.get() > 3000 {
+                if shrink_calls.get() > this.shrink_budget {
                     return Ok(());
                 }
             }
@@ -658,7 +661,7 @@ impl Runner {
                         this.judge(&mut scratch, family, &c, &check, false).is_err()
                     };
                     let v = if fails(&v) { v } else { last_fail.borrow().clone().unwrap_or(v) };
-                    let v = minimise(v, |v| {
+                    let v = minimise(v, this.shrink_budget as usize, |v| {
                         let c = gen(&mut Chooser::new(v));
                         let mut scratch = Acc::default();
                         this.judge(&mut scratch, family, &c, &check, false).is_err()
@@ -948,8 +951,8 @@ pub fn merge_and_report(prop: &str, tier: Tier, seed: u64, root: &PathBuf, nshar
 
 /// Greedy minimiser over a choice vector: delete chunks, zero chunks, then halve single values.
 /// `still_fails` must be deterministic.
-pub fn minimise(mut v: Vec<u32>, still_fails: impl Fn(&[u32]) -> bool) -> Vec<u32> {
-    let mut budget = 3000usize;
+pub fn minimise(mut v: Vec<u32>, budget: usize, still_fails: impl Fn(&[u32]) -> bool) -> Vec<u32> {
+    let mut budget = budget;
     let mut size = (v.len() / 2).max(1);
     while size >= 1 && budget > 0 {
         let mut i = 0;
